@@ -193,7 +193,7 @@ def run_impl(top, ops):
 
 
 def classify(op, viol):
-    if viol[0] == 'min-greater-than-max' and op[0] in ('min', 'max') and op[1] is None:
+    if viol[0] in ('min-greater-than-max', 'piece-length-out-of-bounds') and op[0] in ('min', 'max') and op[1] is None:
         return 'bound-reset-to-default:' + viol[0]
     return viol[0]
 
